@@ -685,18 +685,8 @@ def rule_G(ctx):
     fn['plt'] = _Canvas()
     fn['__globals__']['plt'] = fn['plt']
 
-    class O(orders.PyStub):
-        isa = ('Obs',)
-
-        def __init__(self, pos):
-            self.position = pos
-            self.timestamp = None
-            self.features = []
-
-        def copy(self):
-            o = O(absint.deep_copy(self.position))
-            o.features = list(self.features)
-            return o
+    def O(pos):
+        return absint.real_obs(ctx, fn, pos)          # the repository's own Obs
 
     def track_of(pts):
         return T([O(P(*p_)) for p_ in pts], 'u', 't')
